@@ -26,6 +26,50 @@ def swap_candidates_with_cd_edge(st):
     return out
 
 
+def true_score(st, f):
+    """the documented quality score of a triangle, 12*sqrt(3)*area/perimeter^2 (1 for an equilateral triangle), from the node positions"""
+    p, q, r = (st.nodes[i]["pos"] for i in f["n"])
+    n = RC.cross(RC.sub(q, p), RC.sub(r, p))
+    area = 0.5 * math.sqrt(RC.dot(n, n))
+    per = sum(math.sqrt(RC.dot(RC.sub(x, y), RC.sub(x, y))) for x, y in ((p, q), (q, r), (r, p)))
+    return 12.0 * math.sqrt(3.0) * area / (per * per) if per > 0 else 0.0
+
+
+def score_oracle(st, answer, stats):
+    bad = []
+    if not answer or not answer.startswith("S"):
+        return bad
+    for part in answer.split(" ; ")[1:]:
+        w = part.split()
+        if len(w) != 4 or w[1] == "err":
+            continue
+        k = int(w[0])
+        if k >= len(st.faces) or not st.faces[k]["used"]:
+            continue
+        got = vlib.unhex(w[1])
+        want = true_score(st, st.faces[k])
+        stats["scores_checked"] = stats.get("scores_checked", 0) + 1
+        if want < 0.35:
+            stats["scores_checked_below_0.35"] = stats.get("scores_checked_below_0.35", 0) + 1
+        # the cached area of the face is fresh here (geom was sent): the two numbers agree to rounding
+        if abs(got - want) > 1e-9 * max(1.0, abs(want)) and not bad:
+            bad.append("get_triangle_score of face %d is %.12g, the quality rule 12*sqrt(3)*area/perimeter^2 gives %.12g" % (k, got, want))
+        a, b = int(w[2]), int(w[3])
+        P = [st.nodes[i]["pos"] for i in st.faces[k]["n"]]
+        ids = st.faces[k]["n"]
+        ls = {}
+        for x in range(3):
+            i, j = ids[x], ids[(x + 1) % 3]
+            ls[(min(i, j), max(i, j))] = math.sqrt(sum((P[x][t] - P[(x + 1) % 3][t]) ** 2 for t in range(3)))
+        key = (min(a, b), max(a, b))
+        if key not in ls:
+            if len(bad) < 2:
+                bad.append("get_triangle_score of face %d names the edge %d-%d, which is not an edge of the face" % (k, a, b))
+        elif ls[key] < max(ls.values()) * (1 - 1e-9) and len(bad) < 2:
+            bad.append("get_triangle_score of face %d names the edge %d-%d (length %.9g) as the longest; the longest has length %.9g" % (k, a, b, ls[key], max(ls.values())))
+    return bad
+
+
 def run_histories(pid, tier, seed, n_hist, oracle_state, oracle_refine, oracle_single, widen=False):
     """drives histories; calls the property's oracles:
        oracle_state(st, label)                -> list of failure texts (after every dump of the implementation)
@@ -115,6 +159,13 @@ def run_histories(pid, tier, seed, n_hist, oracle_state, oracle_refine, oracle_s
                 lmin = le_now * (r.choice([0.3, 0.45, 0.6, 0.8]) if nf < 400 else r.choice([1.2, 1.5]))
                 lmax = lmin * r.choice([1.8, 2.5, 3.0])
                 sw = r.randint(0, 1)
+                if sw == 1 and geom_fresh:
+                    # the quality score and the longest edge of every face as the real get_triangle_score reports them (bit-compared with
+                    # the model) and against the documented rule 12*sqrt(3)*area/perimeter^2 evaluated independently on the dumped state
+                    sa, _ = S.send("scores")
+                    stats["score_lines"] = stats.get("score_lines", 0) + 1
+                    for msg in score_oracle(before, sa, stats):
+                        failures.append({"what": msg, "replay": list(S.trace)})
                 a, b = S.send("refine %s %s %d" % (fhex(lmin), fhex(lmax), sw))
                 if a is None:
                     break
@@ -152,7 +203,13 @@ def run_histories(pid, tier, seed, n_hist, oracle_state, oracle_refine, oracle_s
                 if not ls:
                     break
                 lmin, lmax = min(ls) * 0.99, max(ls) * 1.01
-                a, b = S.send("refine %s %s 0" % (fhex(lmin), fhex(lmax)))
+                # … and with the quality rule switched ON when every triangle satisfies it (true score >= 0.2, with a margin for rounding)
+                qs = [true_score(before, f) for f in before.faces if f["used"]]
+                swc = 1 if (qs and min(qs) >= 0.2 * (1 + 1e-6)) else 0
+                stats["conform_with_quality_rule"] = stats.get("conform_with_quality_rule", 0) + swc
+                if swc:
+                    stats["conform_min_true_score"] = min(stats.get("conform_min_true_score", 1.0), min(qs))
+                a, b = S.send("refine %s %s %d" % (fhex(lmin), fhex(lmax), swc))
                 if a is None or a.startswith("threw"):
                     failures.append({"what": "a pass over a mesh that satisfies the length band did not return normally: %s" % a, "replay": list(S.trace)})
                     break
@@ -160,7 +217,7 @@ def run_histories(pid, tier, seed, n_hist, oracle_state, oracle_refine, oracle_s
                 if after is None:
                     break
                 stats["conforming_passes"] += 1
-                info = {"lmin": lmin, "lmax": lmax, "swap": 0, "outcome": a, "ops": RC.parse_ops(b or ""), "geom_fresh": True, "conforming": True, "mode": "none"}
+                info = {"lmin": lmin, "lmax": lmax, "swap": swc, "outcome": a, "ops": RC.parse_ops(b or ""), "geom_fresh": True, "conforming": True, "mode": "none"}
                 for msg in oracle_refine(before, after, info):
                     failures.append({"what": msg, "replay": list(S.trace)})
                 st = after
